@@ -135,6 +135,7 @@ def generate(targets, report):
             try:
                 ex = Exec(t.fullname, fn, globs, c.contract, prims=t.prims(globs) if callable(t.prims) else t.prims,
                           kinds=t.kinds)
+                ex.mod, ex.qualname = t.mod, t.qualname
                 st = c.setup(ex)
                 obls = ex.run(st)
             except NotInSubset as e:
